@@ -98,12 +98,13 @@ func (pc *procController) Enter(op *Op) Decision {
 		// let the application's own handler goroutine run (it cancels the context): csvq's handler builds its
 		// SignalReceived error (SignalSeen) right before it cancels. Waiting for that, not for a fixed time, keeps
 		// "delivered before point k" true on a loaded machine. An application that does not catch the signal has
-		// been ended by it; one that handles it otherwise is given 2 s.
+		// been ended by it; one that handles it otherwise is given 60 s (two seconds were not enough for the handler goroutine
+		// to be scheduled on a machine at load average 100: the run then committed and ended normally).
 		// (bounded by elapsed time, not by iterations: on a loaded machine one short sleep can take milliseconds.)
 		// csvq's handler takes ONE signal: after it has seen one, a further signal only fills the notifier's channel,
 		// nobody will report it, and there is nothing to wait for.
 		if seen == 0 {
-			for start := time.Now(); atomic.LoadInt32(&signalsSeen) == seen && time.Since(start) < 2*time.Second; {
+			for start := time.Now(); atomic.LoadInt32(&signalsSeen) == seen && time.Since(start) < 60*time.Second; {
 				runtime.Gosched()
 				time.Sleep(100 * time.Microsecond)
 			}
